@@ -28,6 +28,9 @@ Lemma ext_icov w up P s s' :
   ext P s s' -> icov w up s -> (forall k, P k -> kcov w up k) -> icov w up s'.
 Proof. intros [A B] I PK k l H. apply B in H. destruct H as [H|H]; [eapply I; eauto|auto]. Qed.
 
+Lemma same_icov w up s s' : same s s' -> icov w up s -> icov w up s'.
+Proof. intros [A B] I k l H. rewrite A in H. eapply I; eauto. Qed.
+
 Lemma ext_index_put s k l : ext (fun k' => k' = k) s (index_put s k l).
 Proof.
   split; [reflexivity|]. intros k' l' H. cbn in H. destruct H as [H|H]; [injection H as <- <-; right; reflexivity|left; exact H].
@@ -148,16 +151,19 @@ Proof.
   - apply TAIL. apply same_ext. exact S1.
 Qed.
 
+Definition fm_res (w : world) (up : list (nat * nat)) (o i : nat) (r : res bool) : Prop :=
+  match r with Ok true => visible w up o i = true | Ok false => True | Err e => e <> 0%Z end.
+
 Lemma fm_refresh_one_spec w up s o i r s' :
   icov w up s -> fm_refresh_one w s o i = (r, s') ->
-  s_threads s' = s_threads s /\ icov w up s' /\ (r = Ok true -> visible w up o i = true).
+  s_threads s' = s_threads s /\ icov w up s' /\ fm_res w up o i r.
 Proof.
-  intros I. unfold fm_refresh_one.
+  intros IC. unfold fm_refresh_one.
   destruct (least_specific s (lookup_keys w o i)) as [[k l]|] eqn:EL.
-  2:{ intros H; injection H as <- <-. split; [reflexivity|]. split; [exact I|discriminate]. }
-  destruct (icov_ls_visible _ _ _ _ _ _ _ I EL) as [V K].
+  2:{ intros H; injection H as <- <-. split; [reflexivity|]. split; [exact IC|exact I]. }
+  destruct (icov_ls_visible _ _ _ _ _ _ _ IC EL) as [V K].
   destruct (negb (needs_refresh s l)).
-  { intros H; injection H as <- <-. split; [reflexivity|]. split; [exact I|auto]. }
+  { intros H; injection H as <- <-. split; [reflexivity|]. split; [exact IC|exact V]. }
   assert (SLOW : forall fk, (forall k', In k' fk -> kcov w up k') ->
     match block_of_loc s l with
     | None => (Err (-3)%Z, s)
@@ -175,71 +181,79 @@ Proof.
             end
         end
     end = (r, s') ->
-    s_threads s' = s_threads s /\ icov w up s' /\ (r = Ok true -> visible w up o i = true)).
+    s_threads s' = s_threads s /\ icov w up s' /\ fm_res w up o i r).
   { intros fk FK. destruct (block_of_loc s l) as [b|].
-    2:{ intros H; injection H as <- <-. split; [reflexivity|]. split; [exact I|auto]. }
+    2:{ intros H; injection H as <- <-. split; [reflexivity|]. split; [exact IC|discriminate]. }
     cbv zeta. pose proof (same_pin s (b_uid b)) as S0.
     destruct (ocn_put (w_cfg w) (pin s (b_uid b)) (l_size l)) as [r1 s1] eqn:E1.
-    apply ocn_put_spec in E1. destruct E1 as [S1 _]. pose proof (same_trans _ _ _ S0 S1) as S1'.
+    apply ocn_put_spec in E1. destruct E1 as [S1 N1]. pose proof (same_trans _ _ _ S0 S1) as S1'.
     destruct r1 as [wr|e1].
     2:{ intros H; injection H as <- <-.
         assert (X : same s (unpin (w_cfg w) s1 (b_uid b))) by (eapply same_trans; [exact S1'|apply same_unpin]).
-        split; [apply X|]. split; [|auto]. eapply ext_icov; [apply same_ext; exact X|exact I|intros k' []]. }
+        split; [apply X|]. split; [eapply same_icov; eauto|]. apply N1; reflexivity. }
     destruct (read_validated w s1 o (b_uid b) l) as [[valid rb] s2] eqn:E2.
     apply read_validated_spec in E2. destruct E2 as [S2 _].
     match goal with |- context [finalize ?c ?x ?wr ?okk] => destruct (finalize c x wr okk) as [r4 s4] eqn:E4 end.
-    apply finalize_spec in E4. destruct E4 as [S4 _].
+    apply finalize_spec in E4. destruct E4 as [S4 N4].
     assert (S14 : same s s4).
     { eapply same_trans; [exact S1'|]. eapply same_trans; [exact S2|]. eapply same_trans; [|exact S4].
       eapply same_trans; [|apply same_unpin]. destruct valid; [apply same_write_block|apply same_refl]. }
     destruct r4 as [nl|e4].
     - intros H; injection H as <- <-.
       assert (X : ext (fun k' => In k' fk) s (index_put_all s4 fk nl)) by (eapply ext_same_l; [exact S14|apply ext_index_put_all]).
-      split; [apply X|]. split; [eapply ext_icov; eauto|auto].
-    - intros H; injection H as <- <-. split; [apply S14|]. split; [|auto].
-      eapply ext_icov; [apply same_ext; exact S14|exact I|intros k' []]. }
+      split; [apply X|]. split; [eapply ext_icov; eauto|exact V].
+    - intros H; injection H as <- <-. split; [apply S14|]. split; [eapply same_icov; eauto|].
+      cbn [fm_res]. destruct valid; [apply N4; reflexivity|discriminate]. }
   destruct (c_hier (w_cfg w)) eqn:Eh.
   - destruct (sync_from_canonical s o k) as [[cl s1]|] eqn:ES.
-    + apply sfc_spec in ES. intros H; injection H as <- <-. split; [apply ES|]. split; [|auto].
+    + apply sfc_spec in ES. intros H; injection H as <- <-. split; [apply ES|]. split; [|exact V].
       eapply ext_icov; eauto. intros k' ->. exact K.
     + apply SLOW. intros k' [<-|[<-|[]]]; [apply kcov_canonical; exact Eh|exact K].
   - apply SLOW. intros k' [<-|[]]. exact K.
 Qed.
 
+Definition fm_out (w : world) (up : list (nat * nat)) (todo : list (nat * (nat * nat))) (missing : list nat)
+  (m : res (list nat)) : Prop :=
+  match m with
+  | Ok ml => (forall x, In x missing -> In x ml) /\
+             (forall pos o i, In (pos, (o, i)) todo -> In pos ml \/ visible w up o i = true)
+  | Err e => e <> 0%Z
+  end.
+
 Lemma fm_phase2_spec w up : forall todo s missing m s',
   icov w up s -> fm_phase2 w s todo missing = (m, s') ->
-  s_threads s' = s_threads s /\ icov w up s' /\
-  forall ml, m = Ok ml ->
-    (forall x, In x missing -> In x ml) /\
-    (forall pos o i, In (pos, (o, i)) todo -> In pos ml \/ visible w up o i = true).
+  s_threads s' = s_threads s /\ icov w up s' /\ fm_out w up todo missing m.
 Proof.
-  induction todo as [|[pos [o i]] t IH]; intros s missing m s' I; cbn [fm_phase2].
-  - intros H; injection H as <- <-. split; [reflexivity|]. split; [exact I|].
-    intros ml E; injection E as <-. split; [auto|]. intros pos o i [].
+  induction todo as [|[pos [o i]] t IH]; intros s missing m s' IC; cbn [fm_phase2].
+  - intros H; injection H as <- <-. split; [reflexivity|]. split; [exact IC|].
+    split; [auto|]. intros pos o i [].
   - destruct (fm_refresh_one w s o i) as [r1 s1] eqn:E1.
-    apply (fm_refresh_one_spec w up) in E1; [|exact I]. destruct E1 as (T1 & I1 & V1).
-    destruct r1 as [[|]|e1].
+    apply (fm_refresh_one_spec w up) in E1; [|exact IC]. destruct E1 as (T1 & I1 & V1).
+    destruct r1 as [[|]|e1]; cbn [fm_res] in V1.
     + intros H. apply IH in H; [|exact I1]. destruct H as (T2 & I2 & R2).
-      split; [congruence|]. split; [exact I2|]. intros ml E. destruct (R2 ml E) as [A B].
+      split; [congruence|]. split; [exact I2|]. destruct m as [ml|e]; [|exact R2]. destruct R2 as [A B].
       split; [exact A|]. intros pos' o' i' [X|X]; [injection X as <- <- <-; right; auto|eauto].
     + intros H. apply IH in H; [|exact I1]. destruct H as (T2 & I2 & R2).
-      split; [congruence|]. split; [exact I2|]. intros ml E. destruct (R2 ml E) as [A B].
+      split; [congruence|]. split; [exact I2|]. destruct m as [ml|e]; [|exact R2]. destruct R2 as [A B].
       split; [intros x Hx; apply A, in_or_app; left; exact Hx|].
       intros pos' o' i' [X|X]; [injection X as <- <- <-; left; apply A, in_or_app; right; left; reflexivity|eauto].
-    + intros H; injection H as <- <-. split; [exact T1|]. split; [exact I1|]. intros ml E; discriminate.
+    + intros H; injection H as <- <-. split; [exact T1|]. split; [exact I1|exact V1].
 Qed.
 
 Lemma find_missing_spec w up s ds m s' :
   icov w up s -> find_missing w s ds = (m, s') ->
   s_threads s' = s_threads s /\ icov w up s' /\
-  forall ml, m = Ok ml ->
-    forall pos o i, In (pos, (o, i)) (enumerate 0 ds) -> In pos ml \/ visible w up o i = true.
+  match m with
+  | Ok ml => forall pos o i, In (pos, (o, i)) (enumerate 0 ds) -> In pos ml \/ visible w up o i = true
+  | Err e => e <> 0%Z
+  end.
 Proof.
-  intros I. unfold find_missing. intros H. apply (fm_phase2_spec w up) in H; [|exact I].
+  intros IC. unfold find_missing. intros H. apply (fm_phase2_spec w up) in H; [|exact IC].
   destruct H as (T & I' & R). split; [exact T|]. split; [exact I'|].
-  intros ml E pos o i Hin. destruct (R ml E) as [A B].
+  destruct m as [ml|e]; [|exact R]. destruct R as [A B].
+  intros pos o i Hin.
   destruct (least_specific s (lookup_keys w o i)) as [[k l]|] eqn:EL.
-  - destruct (icov_ls_visible _ _ _ _ _ _ _ I EL) as [V K]. right; exact V.
+  - destruct (icov_ls_visible _ _ _ _ _ _ _ IC EL) as [V K]. right; exact V.
   - left. apply A. apply in_map_iff. exists (pos, (o, i)). split; [reflexivity|].
     apply filter_In. split; [exact Hin|]. rewrite EL. reflexivity.
 Qed.
